@@ -4,8 +4,9 @@ set -e
 cd "$(dirname "$0")"
 export GOFLAGS=-mod=mod GOPROXY=off GOSUMDB=off GOTOOLCHAIN=local
 mkdir -p build evidence
-(cd extract && go run . -repo /repo -out ../lean/Esc/Gen)
+(cd extract && go run . -repo ${VERIF_REPO:-/repo} -out ../lean/Esc/Gen)
 (cd lean && lake build Esc escmodel EscProofs)
-cp /repo/go.sum harness/go.sum
-(cd harness && go build -tags verif -o ../build/harness .)
+cp ${VERIF_REPO:-/repo}/go.sum build/harness.sum
+sed "s|=> /repo|=> ${VERIF_REPO:-/repo}|" harness/go.mod > build/harness.mod
+(cd harness && go build -modfile ../build/harness.mod -tags verif -o ../build/harness .)
 echo setup done
